@@ -167,6 +167,36 @@ CLAIMED = {
         "technique": "Coq proof (induction over the settings list, lia/nia) + translator-regenerated model + bridge lemmas + differential correspondence",
         "design_ref": "DESIGN.md section 4, C07",
     },
+    "C17": {
+        "level": "proof",
+        "text": "PARTIAL. Proved over a model of series extraction (Model/PlotSeries.v), for all datasets and sizes: one "
+                "series per z value / variable in order with its label; drawn points = the (x, y) pairs where both are "
+                "finite, with c / y_err / x_err under the same mask; all-NaN series present and empty; histogram bins "
+                "partition the range and counts add up; heat-map mesh orientation; panel (i, j) of a row/col grid and its "
+                "titles; colour index monotone, with exact end points and from the dataset-wide scale. Tested (artist "
+                "level differential test with an independent oracle, labelled as a test): that matplotlib artists hold "
+                "exactly those arrays, Axes.hist binning, Normalize / Colormap in binary64, purity of the input dataset.",
+        "note": "No translator unit (the code is xarray / numpy / matplotlib calls): the model is tied by differential "
+                "execution only. Rendering (pixels, layout, fonts) is out of scope. Seven option-combination defects found "
+                "by this check were repaired (known_findings.json, status fixed). No axioms.",
+        "technique": "Coq proof of the series / binning / mesh / panel / colour-index logic + artist-level differential test against matplotlib (Agg)",
+        "design_ref": "DESIGN.md section 4, C17",
+    },
+    "C18": {
+        "level": "proof",
+        "text": "PARTIAL. Proved over a model of infiniplot's mapping logic (Model/Infini.v, structural parts regenerated "
+                "from infiniplot.py by a fail-closed translator): every mapped-coordinate combination that has data is "
+                "drawn exactly once, in product order, in the panel of its row and column, with exactly its slice's data "
+                "(gaps kept or removed); styles are a function of the mapped coordinate and injective while distinct "
+                "defaults remain; heat-map mesh; histogram bins partition and the density integrates to one over the true "
+                "bin widths. Tested (artist-level differential test): matplotlib artists, numpy statistics of "
+                "aggregation (tolerance 1e-9), colour tables, purity.",
+        "note": "xarray stack / sel / dropna and the iteration order are modelled and validated by correspondence. "
+                "Rendering is out of scope. One known finding: histogram mode with every dimension mapped raises. "
+                "No axioms.",
+        "technique": "Coq proof of the slice / panel / style / binning logic over a partly translator-regenerated model + artist-level differential test",
+        "design_ref": "DESIGN.md section 4, C18",
+    },
     "C19": {
         "level": "proof",
         "text": "Coq theorems over the reals for any list (no length bound): Welford's running count / mean / M2 / "
